@@ -53,3 +53,26 @@ Definition py_set_iv_stop (d : list (nat * nat)) (i v : Z) : list (nat * nat) :=
 (* d.insert(i, p) for i >= 0 *)
 Definition py_insert_iv (d : list (nat * nat)) (i : Z) (p : Z * Z) : list (nat * nat) :=
   insert_at (Z.to_nat i) (py_iv p) d.
+
+(* ---- remove / pop ------------------------------------------------------------------------------------ *)
+Definition set_imap (s : iset) (m : tdict nat) : iset := mkIS (items s) m (dead s).
+Definition opt_is_none (x : option Z) : bool := match x with None => true | Some _ => false end.
+Definition opt_eqb (x : option Z) (v : Z) : bool := match x with None => false | Some i => (i =? v)%Z end.
+Definition opt_get (x : option Z) : Z := match x with Some i => i | None => 0%Z end.
+(* l.pop(): (last element, rest); None = IndexError *)
+Definition py_pop_last {A} (l : list A) : option (A * list A) :=
+  match rev l with [] => None | x :: _ => Some (x, removelast l) end.
+(* l[i] = v for an index in range *)
+Definition py_list_set {A} (l : list A) (i : Z) (v : A) : list A := set_nth (py_pos l i) v l.
+(* d.pop(k): (value, rest); None = KeyError *)
+Definition py_dict_pop (m : tdict nat) (k : K) : option (Z * tdict nat) :=
+  match d_get m k with Some v => Some (Z.of_nat v, d_del m k) | None => None end.
+(* del d[v] where v is a slot value: KeyError for _MISSING or an absent key *)
+Definition py_dict_del_slot (m : tdict nat) (v : option K) : option (tdict nat) :=
+  match v with
+  | Some x => if d_mem m x then Some (d_del m x) else None
+  | None => None
+  end.
+(* return v: a slot value handed to the caller *)
+Definition py_return_slot (v : option K) : res ret :=
+  match v with Some x => Ok (RItem x) | None => Raise (OtherExn 12) end.
